@@ -28,6 +28,7 @@ type vxEvents struct {
 	underLock []bool // was the agent's mutex held when the handler ran?
 	agent     *Agent
 	reenter   bool
+	alsoStop  []transactionID // re-entrant handler also stops these IDs (terminators racing at the hand-over point)
 }
 
 func (r *vxEvents) handle(e Event) {
@@ -37,6 +38,9 @@ func (r *vxEvents) handle(e Event) {
 	if r.reenter && r.agent != nil && !held {
 		// handlers may call back into the agent (outside Close): must not deadlock
 		_ = r.agent.Stop(e.TransactionID)
+		for _, id := range r.alsoStop {
+			_ = r.agent.Stop(id)
+		}
 	}
 }
 
@@ -223,6 +227,15 @@ func vh_C13_collect() {
 	rec := &vxEvents{reenter: vxChoose(2) == 1}
 	a, slots, closed := vxAgentState(rec)
 	t := vxTime()
+	if rec.reenter && !closed {
+		// another terminator (Stop) for every transaction that this Collect times out, issued from inside the
+		// first timeout's handler: of the concurrent terminators exactly one may emit
+		for i := range slots {
+			if slots[i].present && slots[i].deadline.Before(t) {
+				rec.alsoStop = append(rec.alsoStop, slots[i].id)
+			}
+		}
+	}
 	vxGuardsOn()
 	err := a.Collect(t)
 	vxGuardsOff()
